@@ -2,6 +2,7 @@ import Driver.Util
 import Driver.OpsC13
 import Driver.OpsRpu
 import Driver.OpsAv1
+import Driver.OpsPq
 import Driver.OpsEdit
 import Driver.OpsEditor
 import Driver.OpsExport
@@ -17,6 +18,7 @@ def step (line : String) : String :=
   | op :: _ =>
     if ["esc", "unesc", "hesc", "hunesc", "escdigest"].contains op then C13.run parts
     else if op.startsWith "av1." || op == "c08.av1" || (op == "c08.capi" && parts.getD 1 "" == "av1") then Av1Ops.run parts
+    else if op.startsWith "pq." then PqOps.run parts
     else if op.startsWith "file." then FileOps.run parts
     else if op == "gen" then GenOps.run parts
     else if op == "export" then ExportOps.run parts
